@@ -5,11 +5,12 @@
 //     -> none                                    (Histogram::new returned None)
 //     -> B:<b,b,..> | c,c,..;count;sumbits | ... (bounds echoed from buckets(), then one snapshot per op)
 //
-//  D <0|1> <g,g,..|-> <namehex> | <F|P|S>:<pathex>:<b,b,..> ...
+//  D <0|1> <g,g,..|-> <namehex> <usfx 0|1> <unit as_str|-> | <F|P|S>:<pathex>:<b,b,..> ...
 //        0: DistributionBuilder::new directly on the matchers as given (HashMap insertion order = list order)
 //        1: PrometheusBuilder::set_buckets_for_metric (sanitises the matcher) + build_recorder + one sample
 //           recorded under the raw name + render; kind read from the `# TYPE` line, bounds from `le="..."`
-//     -> <h|s> <H:b,b,..|S>            (get_distribution_type ; get_distribution)
+//           with 1: set_enable_unit_suffix(usfx) and, unless unit is -, describe_histogram!(name, unit, ..)
+//     -> <h|s> <H:b,b,..|S> <famhex>   (TYPE-line type ; series rendered ; TYPE-line name;  0: type/distribution/name)
 //
 //  R <bucket_count> <dur_ns> | A<t>:<vhex> P<t> ...   RollingSummary through Distribution::new_summary/record_samples
 //     -> a<count>  |  p:<count>:<sumbits>:<scount>:<minbits>:<maxbits>:<q,q,..>      (one token per op)
@@ -84,7 +85,10 @@ fn dist_case(rest: &str) -> String {
     let san = hs.next().unwrap() == "1";
     let g = hs.next().unwrap();
     let global = if g == "-" { None } else { Some(flist(g)) };
-    let name = unhex(hs.next().unwrap_or(""));
+    let nh = hs.next().unwrap_or("-");
+    let name = if nh == "-" { String::new() } else { unhex(nh) };
+    let usfx = hs.next().unwrap_or("0") == "1";
+    let unit = match hs.next().unwrap_or("-") { "-" => None, u => Some(metrics::Unit::from_string(u).expect("unit")) };
     let mut overrides: Vec<(Matcher, Vec<f64>)> = Vec::new();
     for tok in ovs.split_whitespace() {
         let mut p = tok.split(':');
@@ -106,32 +110,50 @@ fn dist_case(rest: &str) -> String {
             Distribution::Summary(..) => "S".to_string(),
         };
         let t = match ty.as_str() { "histogram" => "h", "summary" => "s", _ => "?" };
-        format!("{} {}", t, d)
+        format!("{} {} {}", t, d, hexs(&name))
     } else {
-        let mut pb = PrometheusBuilder::new();
+        let mut pb = PrometheusBuilder::new().set_enable_unit_suffix(usfx);
         for (k, v) in overrides { pb = pb.set_buckets_for_metric(k, &v).unwrap(); }
         if let Some(g) = global { pb = pb.set_buckets(&g).unwrap(); }
         let rec = pb.build_recorder();
         let handle = rec.handle();
         let n2 = name.clone();
-        metrics::with_local_recorder(&rec, move || { metrics::histogram!(n2).record(1.0); });
+        metrics::with_local_recorder(&rec, move || {
+            if let Some(u) = unit { metrics::describe_histogram!(n2.clone(), u, "d"); }
+            metrics::histogram!(n2).record(1.0);
+        });
         let text = handle.render();
         let mut ty = "?".to_string();
+        let mut fam: Option<String> = None;
         let mut les: Vec<f64> = Vec::new();
-        let mut has_q = false;
+        let (mut has_q, mut has_inf, mut types) = (false, false, 0);
+        let mut series: Vec<String> = Vec::new();
         for line in text.lines() {
             if let Some(r) = line.strip_prefix("# TYPE ") {
-                ty = match r.rsplit(' ').next().unwrap() { "histogram" => "h".into(), "summary" => "s".into(), o => o.to_string() };
-            } else if line.contains("quantile=\"") {
+                let (f, k) = r.rsplit_once(' ').unwrap();
+                types += 1;
+                fam = Some(f.to_string());
+                ty = match k { "histogram" => "h".into(), "summary" => "s".into(), o => o.to_string() };
+                continue;
+            }
+            if line.starts_with('#') || line.is_empty() { continue; }
+            let end = line.find(|c| c == '{' || c == ' ').unwrap();
+            series.push(line[..end].to_string());
+            if line.contains("quantile=\"") {
                 has_q = true;
             } else if let Some(i) = line.find("le=\"") {
                 let r = &line[i + 4..];
                 let v = &r[..r.find('"').unwrap()];
-                if v != "+Inf" { les.push(v.parse::<f64>().unwrap()); }
+                if v == "+Inf" { has_inf = true } else { les.push(v.parse::<f64>().unwrap()); }
             }
         }
-        let d = if has_q && les.is_empty() { "S".to_string() } else if !has_q && !les.is_empty() { format!("H:{}", blist(&les)) } else { format!("?{}", text.replace('\n', "\\n")) };
-        format!("{} {}", ty, d)
+        let fam = fam.unwrap_or_default();
+        // every sample of the family is named after the family: fam, fam_bucket, fam_sum, fam_count
+        let named = series.iter().all(|n| n == &fam || *n == format!("{}_bucket", fam) || *n == format!("{}_sum", fam) || *n == format!("{}_count", fam));
+        let d = if types == 1 && named && has_q && !has_inf && les.is_empty() { "S".to_string() }
+                else if types == 1 && named && !has_q && has_inf && !les.is_empty() { format!("H:{}", blist(&les)) }
+                else { return format!("panic:unexpected rendering {}", text.replace('\n', "\\n")); };
+        format!("{} {} {}", ty, d, hexs(&fam))
     }
 }
 
